@@ -5,11 +5,13 @@ CONSTANTS
   EarlyTokPut = TRUE
   UnguardedPaths = FALSE
   SharedCurrent = FALSE
+  BlindInsert = FALSE
 INVARIANTS
   NoConflictingAccess
   TokensIntact
   RelativeNameOwn
   SerialEquivalent
+  RegistrationLasts
   SingleOwner
 CHECK_DEADLOCK FALSE
 VIEW View
